@@ -469,3 +469,75 @@ def spider(case, ctx):
         raise Violation("C20.shape.binary", "spider(antialias=False) is not binary")
     if a.min() == 1:
         raise Violation("C20.shape.empty", "spider arm of width >= 0.5 drew nothing")
+
+
+# --- large arrays (sizes at and around 64 / 128 / 256 / 512) ------------------------------------------------
+
+@st.composite
+def large_geom_case(draw, tier):
+    pool = gen.BIG + gen.HUGE
+    n = (draw(st.sampled_from(pool)), draw(st.sampled_from(pool + [7, 20])))
+    N = (draw(st.sampled_from(pool + [9, 30])), draw(st.sampled_from(pool)))
+    return {"n": list(n), "N": list(N), "depth": draw(st.sampled_from([0, 0, 2])), "seed": draw(st.integers(0, 2**31 - 1)),
+            "layout": draw(gen.layouts()), "factor": draw(st.sampled_from([2, 3, 4, 8]))}
+
+
+def _ref_pad_fast(a, N):
+    out = np.zeros(a.shape[:-2] + tuple(N), dtype=a.dtype)
+    n = a.shape[-2:]
+    src, dst = [], []
+    for ax in range(2):
+        i = np.arange(n[ax])
+        I = i - n[ax] // 2 + N[ax] // 2
+        ok = (I >= 0) & (I < N[ax])
+        src.append(i[ok])
+        dst.append(I[ok])
+    out[..., dst[0][:, None], dst[1][None, :]] = a[..., src[0][:, None], src[1][None, :]]
+    return out
+
+
+@hyp("C20", "large", lambda tier: large_geom_case(tier),
+     "pad / crop / subarray / boundary_slice / slice_offset / centroid / rebin on arrays of 63..700 samples per axis",
+     examples=(40, 150), budget_s=(120, 600))
+def large(case, ctx):
+    n, N = tuple(case["n"]), tuple(case["N"])
+    rng = np.random.default_rng(case["seed"])
+    shape = n if case["depth"] == 0 else (case["depth"],) + n
+    a = gen.relayout(rng.uniform(1, 2, size=shape), case["layout"])
+    ctx.tag("cube" if case["depth"] else "2d", "layout:" + case["layout"], f"max:{max(max(n), max(N)) // 128 * 128}+")
+    ctx.nontrivial_if(True)
+    with lentil_call("C20.large.pad", f"pad({a.shape} -> {N})"):
+        out = lentil.pad(a, N)
+    if not np.array_equal(out, _ref_pad_fast(a, N)):
+        raise Violation("C20.large.pad", f"pad({a.shape} -> {N}) does not keep sample floor(n/2) at floor(N/2)")
+    # a blob somewhere in the array: bounding slice, offset, centroid
+    img = np.zeros(n)
+    r0, c0 = int(rng.integers(0, n[0] - 3)), int(rng.integers(0, n[1] - 3))
+    h, w = int(rng.integers(1, min(40, n[0] - r0))), int(rng.integers(1, min(40, n[1] - c0)))
+    img[r0:r0 + h, c0:c0 + w] = rng.uniform(0.5, 1.5, size=(h, w))
+    img = gen.relayout(img, case["layout"])
+    with lentil_call("C20.large.bounds", "boundary_slice / slice_offset / centroid / subarray"):
+        sl = lhelper.boundary_slice(img)
+        off = lhelper.slice_offset(sl, n)
+        cr, cc = lentil.centroid(img)
+        sub = lentil.subarray(img, (h, w), tuple(int(v) for v in off))
+    want_off = (r0 + h // 2 - n[0] // 2, c0 + w // 2 - n[1] // 2)
+    if (int(sl[0].start), int(sl[0].stop), int(sl[1].start), int(sl[1].stop)) != (r0, r0 + h, c0, c0 + w):
+        raise Violation("C20.large.boundary_slice", f"bounding slice {sl} != rows {r0}:{r0 + h}, cols {c0}:{c0 + w}")
+    if tuple(int(v) for v in off) != want_off:
+        raise Violation("C20.large.slice_offset", f"slice_offset {off} != {want_off} for array {n}")
+    if not np.array_equal(sub, img[r0:r0 + h, c0:c0 + w]):
+        raise Violation("C20.large.subarray", "subarray(shape, shift=slice_offset) is not the bounding box content")
+    ii, jj = np.indices(n)
+    er, ec = float((ii * img).sum() / img.sum()), float((jj * img).sum() / img.sum())
+    if abs(cr - er) > 1e-8 * n[0] or abs(cc - ec) > 1e-8 * n[1]:
+        raise Violation("C20.large.centroid", f"centroid {(cr, cc)} != first moment {(er, ec)} for array {n}")
+    f = case["factor"]
+    m2 = (n[0] // f * f, n[1] // f * f)
+    if min(m2) >= f:
+        src = np.ascontiguousarray(a[..., :m2[0], :m2[1]])
+        with lentil_call("C20.large.rebin", f"rebin({src.shape}, {f})"):
+            rb = lentil.rebin(src, f)
+        exp = src.reshape(src.shape[:-2] + (m2[0] // f, f, m2[1] // f, f)).sum(axis=(-3, -1))
+        if rb.shape != exp.shape or np.max(np.abs(rb - exp)) > 1e-10 * f * f:
+            raise Violation("C20.large.rebin", f"rebin({src.shape}, {f}) differs from block sums")
